@@ -21,6 +21,11 @@ add("C14", "proof",
     "Healthy sink, full-length source reads. Proved: writer side for WriteBit/WriteBits/Close/closed-state. Not proved (correspondence + reference only): WriteArray aligned/unaligned bulk paths, ReadBit/ReadBits/ReadArray. Models tied to the Go code differentially (bounded, seeded).",
     "Coq proof (numeric bit-vector refinement of the accumulator/buffer model) + extracted-model/Go differential on random op programs", "5.1, 6/C14")
 
+add("C07", "proof",
+    "Theorems in coq/Properties/C07.v about the transition-system model of the hand-off protocol (both sides, the Load/Store pair of the decode handler as two steps): for EVERY number of tasks and EVERY interleaving (induction over steps, invariant Inv): at most one task owns the shared stream; accesses are first+1, first+2, ... without gap or repeat; a natural-number measure strictly decreases on every non-spin step and every non-final reachable state has a non-spin step enabled (no deadlock / lost wake-up, for a failure at any step of any task, end-of-stream and skipped outcomes included); once the cancel value is stored no schedule makes the counter leave it or lets another task touch the stream; the in-order result scan reports the smallest failed task; a completed uncancelled run equals the sequential one. The pre-fix decode publish (plain store) is refuted by a 3-task witness. All Closed under the global context. The model is tied to the real tasks by controlled-scheduler executions replayed through the extracted step function (exhaustive over schedules for 2 tasks).",
+    "Atomics are sequentially consistent steps; weak fairness of the Go scheduler; what happens between two hook points is one model step (hooks are placed at every atomic access of the counter). Model/code agreement: all schedules of 2-task batches x one injected failure, sampled for 3..5 tasks.",
+    "Coq proof (inductive invariant over an interleaving transition system) + controlled-scheduler trace replay of the real goroutines through the extracted model", "5.5, 6/C07")
+
 NOT_YET = {}
 def main():
     props = [json.loads(l)["id"] for l in open(os.path.join(ROOT, "properties.jsonl"))]
@@ -33,6 +38,6 @@ def main():
         not_applicable=[dict(property_id=p, reason=NOT_YET.get(p, "check not built yet in this snapshot of /verif (work in progress; see DESIGN.md section 6 for the plan)")) for p in props if p not in CHECKS],
         notes="Every check: regenerate facts from /repo, full Coq build + assumption audit of Properties/<id>.v, build Go harness from /repo's working tree (-tags verif), run implementation-side search and model/implementation correspondence, write evidence/<id>.json. See DESIGN.md.")
     json.dump(m, open(os.path.join(ROOT, "MANIFEST.json"), "w"), indent=1)
-HOOK_COMMITS = []
+HOOK_COMMITS = ["4ad4a36"]
 if __name__ == "__main__":
     main()
